@@ -60,6 +60,17 @@ struct BtModel
   }
 };
 
+// a backtrace statement, optionally with named placeholders (the stored copy must keep message, pairs and payload)
+inline int log_bt(Lg* lg, bool named, uint32_t tid, uint32_t seq, uint32_t len)
+{
+  int res = -1;
+  std::string const pl = payload(tid, seq, len);
+  std::string_view const sv{pl};
+  if (named) VF_LOG_RES(res, lg, quill::LogLevel::Backtrace, "{tid}|{seq}|{len}|{pl}", tid, seq, len, sv);
+  else VF_LOG_RES(res, lg, quill::LogLevel::Backtrace, "{}|{}|{}|{}", tid, seq, len, sv);
+  return res;
+}
+
 inline bool backtrace_S(Rng& r, uint64_t idx)
 {
   World w;
@@ -76,6 +87,7 @@ inline bool backtrace_S(Rng& r, uint64_t idx)
   World* wp = &w;
   bool lag = r.chance(1, 2); // let the backend lag behind (it is drained before anything that changes the flush level)
   uint64_t wraps = 0, flushes = 0, wrapped_flushes = 0, reinit = 0, stores = 0, dropped = 0;
+  std::map<std::pair<uint32_t, uint32_t>, std::pair<uint32_t, bool>> bt_info; // (tid, seq) -> (payload length, named placeholders)
   auto settle = [&] { run.drain("backtrace_S"); };
   auto init = [&](uint32_t l, uint32_t cap, quill::LogLevel fl)
   {
@@ -103,8 +115,11 @@ inline bool backtrace_S(Rng& r, uint64_t idx)
       uint32_t seq = sp->seq++;
       int res = 1;
       int* rp = &res;
-      run.run_on(*sp, [wp, sp, l, seq, rp] { std::vector<Issue> tmp; *rp = issue_std(tmp, wp->loggers[l].lg, static_cast<uint16_t>(l), quill::LogLevel::Backtrace, sp->tid, seq, 5).res; }, "bt");
+      bool const named = r.chance(1, 3);
+      uint32_t const blen = static_cast<uint32_t>(r.chance(1, 4) ? r.range(80, 300) : r.range(0, 20)); // beyond the event's inline buffer too
+      run.run_on(*sp, [wp, sp, l, seq, rp, named, blen] { *rp = log_bt(wp->loggers[l].lg, named, sp->tid, seq, blen); }, "bt");
       if (res != 1) { ++dropped; continue; } // dropping queue refused it: never stored
+      bt_info[{sp->tid, seq}] = {blen, named};
       m.store(sp->tid, seq);
       ++stores;
       if (++since_flush[l] > m.cap) ++wraps;
@@ -156,8 +171,22 @@ inline bool backtrace_S(Rng& r, uint64_t idx)
         if (e.kind == 'w' && e.sink == w.sink_id_base + l)
         {
           Parsed p = parse_msg(e.msg);
-          if (p.ok) got.emplace_back(p.tid, p.seq);
+          if (!p.ok) continue;
+          got.emplace_back(p.tid, p.seq);
+          // the replayed copy is complete: payload intact, and exactly its own key/value pairs
+          auto bi = bt_info.find({p.tid, p.seq});
+          bool const named = bi != bt_info.end() && bi->second.second;
+          std::vector<std::pair<std::string, std::string>> want;
+          if (named) want = {{"tid", std::to_string(p.tid)}, {"seq", std::to_string(p.seq)}, {"len", std::to_string(p.len)}, {"pl", payload(p.tid, p.seq, p.len)}};
+          bool const named_ok = named ? (e.has_named && e.named == want) : (!e.has_named || e.named.empty());
+          if (!p.payload_ok || (bi != bt_info.end() && bi->second.first != p.len) || !named_ok)
+          {
+            violation("C18", !named_ok ? "replayed-statement-named-args-differ" : "replayed-statement-corrupt", J{}.unum("tid", p.tid).unum("seq", p.seq).unum("len", p.len).boolean("named", named).unum("pairs", e.named.size()).str("scenario", "backtrace_S").raw("cfg", w.describe()));
+            ok = false;
+            break;
+          }
         }
+      if (!ok) break;
       auto const& exp = model[l].expected;
       size_t i = 0;
       while (i < got.size() && i < exp.size() && got[i] == exp[i]) ++i;
